@@ -27,6 +27,14 @@ def cases() -> List[Dict[str, Any]]:
         "pkg/sub/__init__.py": "__docformat__ = 'restructuredtext'\n",
         "pkg/sub/mod.py": "class K:\n    '''\n    Summary.\n\n    :ivar x: an instance variable\n    :cvar y: a class variable\n    '''\n    def m(self):\n        '''\n        :param a: A\n        '''\n",
     }, ["app.py", "pkg"]))
+    for how, stmt in (("star", "from pkg.sub.mod import *\nclass User(K):\n    pass\n"), ("plain-import", "import pkg.sub.mod\nclass User(pkg.sub.mod.K):\n    pass\n"),
+                      ("from-package", "from pkg.sub import mod\nclass User(mod.K):\n    pass\n")):
+        out.append(hw("subpackage-docformat-bypassed-" + how, {
+            "app.py": stmt,
+            "pkg/__init__.py": "",
+            "pkg/sub/__init__.py": "__docformat__ = 'restructuredtext'\n",
+            "pkg/sub/mod.py": "class K:\n    '''\n    Summary.\n\n    :ivar x: an instance variable\n    :cvar y: a class variable\n    '''\n    def m(self):\n        '''\n        :param a: A\n        '''\n",
+        }, ["app.py", "pkg"]))
     # package docformat, module imported before its package by a sibling root
     out.append(hw("package-docformat-bypassed", {
         "aaa.py": "import zzz.inner\nfrom zzz.inner import K\n",
@@ -51,6 +59,22 @@ def cases() -> List[Dict[str, Any]]:
         "pk/a.py": "from .b import *\nclass A(B):\n    pass\n",
         "pk/b.py": "class B:\n    pass\nfrom .a import *\nclass B2(B):\n    pass\n",
     }, ["pk"], cyclic=True))
+    # the base class was moved by a re-export before / after the subclass is visited: consumers of the bases at visit time
+    out.append(hw("moved-base-wrapped-method", {
+        "pk/__init__.py": "from ._impl import B\n__all__ = ['B']\n",
+        "pk/_impl.py": "class B:\n    def run(self):\n        'doc'\n",
+        "pk/auser.py": "from pk._impl import B\ndef deco(f): return f\nclass D(B):\n    run = deco(B.run)\n",
+        "other.py": "from pk._impl import B\ndef deco(f): return f\nclass E(B):\n    run = deco(B.run)\n"}, ["other.py", "pk"]))
+    out.append(hw("moved-base-zope-interface", {
+        "zk/__init__.py": "from ._i import IBase\n__all__ = ['IBase']\n",
+        "zk/_i.py": "from zope.interface import Interface\nclass IBase(Interface):\n    def m():\n        'doc'\n",
+        "zk/asub.py": "from zk._i import IBase\nclass ISub(IBase):\n    def n():\n        'doc'\n",
+        "zother.py": "from zk._i import IBase\nclass IOther(IBase):\n    pass\n"}, ["zother.py", "zk"]))
+    # a file that does not parse, reached first through an import or first by the main loop
+    out.append(hw("unparsable-module-imported", {
+        "pk/__init__.py": "", "pk/atool.py": "from pk import legacy\nclass A:\n    pass\n", "pk/ztool.py": "from pk import legacy\nclass Z:\n    pass\n",
+        "pk/legacy.py": "print 'hello'\n"}, ["pk"]))
+    out.append(hw("unparsable-root-imported", {"tool.py": "import legacy\nclass T:\n    pass\n", "legacy.py": "print 'hello'\n"}, ["tool.py", "legacy.py"]))
     # package star-importing a sub-module that imports from the package before defining its class; another root first
     out.append(hw("star-from-half-processed", {
         "other.py": "from pkg.sub import X\nclass Y(X):\n    pass\n",
@@ -109,6 +133,9 @@ def explore(case: Dict[str, Any], scratch: Path, limit: int = 200) -> Dict[str, 
         if n >= limit:
             break
         b = P.build_sources(paths=rp, record_states=False, rank=lambda p, rank=rank: (rank.get(str(p), 10 ** 6), str(p)))
+        if b["crashed"]:
+            outcomes.setdefault(json.dumps({"aborted": b["crashed"].split(":")[0]}), []).append([str(x.relative_to(base)) for x in rp])
+            continue
         d = full_dump(b["system"])
         if case["cyclic"]:
             d = {k: {"bases": v.get("bases"), "mro": v.get("mro")} for k, v in d.items() if v["cls"] == "Class"}
